@@ -42,6 +42,7 @@ func init() {
 			}},
 			{"C05.exact-reads", "fixed-size fields are read completely (no direct Read in the decoding primitives; byte counts used)", 1, func(c *Ctx) { c.exactReads() }},
 			{"C05.errors-not-dropped", "no error of the operations this property depends on is dropped", 1, func(c *Ctx) { c.errorsNotDropped("C05") }},
+			{"C05.outputs-truncated", "output files are created truncating (shared with C13/C04)", 10, func(c *Ctx) { c.outputsTruncated() }},
 		},
 	})
 }
